@@ -851,3 +851,317 @@ Proof.
   split; [exact (eq_trans (eq_sym (Ht l)) Hv)|]. split; [exact Hv|]. split; [exact Hp|]. split; [exact Hs|].
   unfold silent_guard, score in *. rewrite Hv. destruct seq; [congruence|reflexivity].
 Qed.
+
+(* ------------------------------------------------------------------ sweep *)
+Lemma tones_sound pin f st :
+  tones (snd (sound pin f st)) = if qlt q0 f then [tone_of f] else [].
+Proof. unfold sound. destruct (qlt q0 f); reflexivity. Qed.
+
+Lemma sweep_loop_tones pin s e steps sd k : forall a st,
+  tones (snd (sweep_loop pin s e steps sd k (Z.of_nat a) st)) =
+  map tone_of (positives (map (fun j => sweep_freq s e steps (Z.of_nat j)) (seq a k))).
+Proof.
+  induction k as [|k IH]; intros a st; [reflexivity|].
+  cbn [sweep_loop seq map].
+  pose proof (tones_sound pin (sweep_freq s e steps (Z.of_nat a)) st) as Hs.
+  destruct (sound pin (sweep_freq s e steps (Z.of_nat a)) st) as [st1 e1]. cbn [snd] in Hs.
+  replace (Z.of_nat a + 1) with (Z.of_nat (S a)) by lia.
+  specialize (IH (S a) st1).
+  destruct (sweep_loop pin s e steps sd k (Z.of_nat (S a)) st1) as [st2 e3]. cbn [fst snd] in *.
+  rewrite !tones_app, tones_qdelay, Hs, IH. unfold positives. cbn [filter].
+  destruct (qlt q0 (sweep_freq s e steps (Z.of_nat a))); reflexivity.
+Qed.
+
+Lemma sweep_tones pin neg tbl st s e d steps :
+  tones (snd (dstep pin neg tbl st (Sweep s e d steps))) =
+  map tone_of (positives (sweep_freqs (clamp0 s) (clamp0 e) (Z.max 1 (c_int steps)))).
+Proof.
+  cbn [dstep]. unfold sweep, sweep_freqs.
+  pose proof (sweep_loop_tones pin (clamp0 s) (clamp0 e) (Z.max 1 (c_int steps))
+               (inject_Z (c_ulong neg d) / inject_Z (Z.max 1 (c_int steps)))%Q
+               (Z.to_nat (Z.max 1 (c_int steps))) 0%nat st) as Hl.
+  change (Z.of_nat 0) with 0 in Hl.
+  destruct (sweep_loop pin (clamp0 s) (clamp0 e) (Z.max 1 (c_int steps))
+              (inject_Z (c_ulong neg d) / inject_Z (Z.max 1 (c_int steps)))%Q
+              (Z.to_nat (Z.max 1 (c_int steps))) 0 st) as [st1 e1].
+  cbn [fst snd] in *. rewrite tones_app, Hl. cbn. rewrite app_nil_r. reflexivity.
+Qed.
+
+Lemma den_pos n : 1 < n -> (0 < inject_Z n - 1)%Q.
+Proof.
+  intro H. setoid_replace (inject_Z n - 1)%Q with (inject_Z (n - 1)).
+  - change 0%Q with (inject_Z 0). rewrite <- Zlt_Qlt. lia.
+  - unfold Zminus. rewrite inject_Z_plus. reflexivity.
+Qed.
+
+Lemma progress_range n i : 1 < n -> 0 <= i <= n - 1 ->
+  (0 <= inject_Z i / (inject_Z n - 1) /\ inject_Z i / (inject_Z n - 1) <= 1)%Q.
+Proof.
+  intros Hn Hi. pose proof (den_pos n Hn) as HD. split.
+  - apply Qle_shift_div_l; [exact HD|]. rewrite Qmult_0_l.
+    change 0%Q with (inject_Z 0). rewrite <- Zle_Qle. lia.
+  - apply Qle_shift_div_r; [exact HD|]. rewrite Qmult_1_l.
+    setoid_replace (inject_Z n - 1)%Q with (inject_Z (n - 1)).
+    + rewrite <- Zle_Qle. lia.
+    + unfold Zminus. rewrite inject_Z_plus. reflexivity.
+Qed.
+
+Lemma qlt_pos_clamp x : (0 < x)%Q -> qlt q0 (clamp0 x) = true.
+Proof.
+  intro H. assert (Hx : qlt q0 x = true) by (apply qlt_true; exact H).
+  rewrite (clamp0_pos x Hx). exact Hx.
+Qed.
+
+Lemma sweep_freq_pos s e n i : (0 < s)%Q -> (0 < e)%Q -> 1 <= n -> 0 <= i <= n - 1 ->
+  qlt q0 (sweep_freq s e n i) = true.
+Proof.
+  intros Hs He Hn Hi. unfold sweep_freq. apply qlt_pos_clamp.
+  destruct (n =? 1) eqn:E.
+  - setoid_replace (s + (e - s) * (1 # 1))%Q with e by ring. exact He.
+  - apply Z.eqb_neq in E. destruct (progress_range n i ltac:(lia) Hi) as [H0 H1].
+    set (p := (inject_Z i / (inject_Z n - (1 # 1)))%Q) in *. nra.
+Qed.
+
+Lemma positives_all l : Forall (fun f => qlt q0 f = true) l -> positives l = l.
+Proof.
+  induction 1 as [|f l Hf _ IH]; [reflexivity|]. unfold positives in *. cbn. rewrite Hf, IH. reflexivity.
+Qed.
+
+Lemma sweep_freqs_all_pos s e n : (0 < s)%Q -> (0 < e)%Q -> 1 <= n ->
+  Forall (fun f => qlt q0 f = true) (sweep_freqs s e n).
+Proof.
+  intros Hs He Hn. unfold sweep_freqs. apply Forall_forall. intros f Hin.
+  apply in_map_iff in Hin as (j & Hj & Hin). subst f. apply in_seq in Hin.
+  apply sweep_freq_pos; try assumption. rewrite <- (Z2Nat.id n) by lia. lia.
+Qed.
+
+Lemma sweep_freqs_length s e n : length (sweep_freqs s e n) = Z.to_nat n.
+Proof. unfold sweep_freqs. rewrite map_length, seq_length. reflexivity. Qed.
+
+(* monotone in the step index *)
+Lemma progress_mono n i j : 1 < n -> i <= j ->
+  (inject_Z i / (inject_Z n - 1) <= inject_Z j / (inject_Z n - 1))%Q.
+Proof.
+  intros Hn Hij. unfold Qdiv. apply Qmult_le_compat_r.
+  - rewrite <- Zle_Qle. exact Hij.
+  - apply Qinv_le_0_compat. apply Qlt_le_weak. apply den_pos. exact Hn.
+Qed.
+
+Lemma sweep_freq_up s e n i j : (s <= e)%Q -> 1 <= n -> i <= j ->
+  (sweep_freq s e n i <= sweep_freq s e n j)%Q.
+Proof.
+  intros Hse Hn Hij. unfold sweep_freq. destruct (n =? 1) eqn:E; [apply Qle_refl|].
+  apply Z.eqb_neq in E. apply clamp0_mono.
+  pose proof (progress_mono n i j ltac:(lia) Hij) as Hp.
+  set (p := (inject_Z i / (inject_Z n - (1 # 1)))%Q) in *.
+  set (r := (inject_Z j / (inject_Z n - (1 # 1)))%Q) in *. nra.
+Qed.
+
+Lemma sweep_freq_down s e n i j : (e <= s)%Q -> 1 <= n -> i <= j ->
+  (sweep_freq s e n j <= sweep_freq s e n i)%Q.
+Proof.
+  intros Hse Hn Hij. unfold sweep_freq. destruct (n =? 1) eqn:E; [apply Qle_refl|].
+  apply Z.eqb_neq in E. apply clamp0_mono.
+  pose proof (progress_mono n i j ltac:(lia) Hij) as Hp.
+  set (p := (inject_Z i / (inject_Z n - (1 # 1)))%Q) in *.
+  set (r := (inject_Z j / (inject_Z n - (1 # 1)))%Q) in *. nra.
+Qed.
+
+Lemma positives_map (g : nat -> Q) l :
+  positives (map g l) = map g (filter (fun j => qlt q0 (g j)) l).
+Proof.
+  unfold positives. induction l as [|a l IH]; [reflexivity|].
+  cbn. destruct (qlt q0 (g a)); cbn; rewrite IH; reflexivity.
+Qed.
+
+Lemma sorted_map_filter (R : Z -> Z -> Prop) (h : nat -> Z) (keep : nat -> bool) :
+  (forall i j, (i <= j)%nat -> R (h i) (h j)) ->
+  forall k a, StronglySorted R (map h (filter keep (seq a k))).
+Proof.
+  intros Hm. induction k as [|k IH]; intro a; [constructor|].
+  cbn [seq filter]. destruct (keep a); [|apply IH].
+  cbn [map]. constructor; [apply IH|].
+  apply Forall_forall. intros x Hx. apply in_map_iff in Hx as (j & Hj & Hin). subst x.
+  apply filter_In in Hin as [Hin _]. apply in_seq in Hin. apply Hm. lia.
+Qed.
+
+Lemma sweep_tones_sorted (R : Z -> Z -> Prop) s e n :
+  (forall i j, (i <= j)%nat ->
+     R (tone_of (sweep_freq s e n (Z.of_nat i))) (tone_of (sweep_freq s e n (Z.of_nat j)))) ->
+  StronglySorted R (map tone_of (positives (sweep_freqs s e n))).
+Proof.
+  intro H. unfold sweep_freqs. rewrite positives_map, map_map.
+  apply (sorted_map_filter R (fun j => tone_of (sweep_freq s e n (Z.of_nat j)))). exact H.
+Qed.
+
+Lemma clamp0_le_compat a b : (a <= b)%Q -> (clamp0 a <= clamp0 b)%Q.
+Proof. apply clamp0_mono. Qed.
+
+(* first and last *)
+Lemma sweep_freq_first s e n : 1 < n -> (sweep_freq s e n 0 == clamp0 s)%Q.
+Proof.
+  intro Hn. unfold sweep_freq. replace (n =? 1) with false by (symmetry; apply Z.eqb_neq; lia).
+  apply clamp0_comp. unfold Qdiv. change (inject_Z 0) with 0%Q. ring.
+Qed.
+
+Lemma sweep_freq_last s e n : 1 <= n -> (sweep_freq s e n (n - 1) == clamp0 e)%Q.
+Proof.
+  intro Hn. unfold sweep_freq. destruct (n =? 1) eqn:E.
+  - apply clamp0_comp. ring.
+  - apply Z.eqb_neq in E. apply clamp0_comp.
+    assert (HD : (0 < inject_Z n - 1)%Q) by (apply den_pos; lia).
+    setoid_replace (inject_Z (n - 1)) with (inject_Z n - 1)%Q
+      by (unfold Zminus; rewrite inject_Z_plus; reflexivity).
+    setoid_replace ((inject_Z n - 1) / (inject_Z n - (1 # 1)))%Q with 1%Q.
+    + ring.
+    + unfold Qdiv. apply Qmult_inv_r. intro Hz. rewrite Hz in HD. apply (Qlt_irrefl 0). exact HD.
+Qed.
+
+Lemma seq_last_split n : (0 < n)%nat -> seq 0 n = seq 0 (n - 1) ++ [(n - 1)%nat].
+Proof.
+  intro H. replace n with (S (n - 1)) at 1 by lia. rewrite seq_S. reflexivity.
+Qed.
+
+Lemma positives_app a b : positives (a ++ b) = positives a ++ positives b.
+Proof. unfold positives. apply filter_app. Qed.
+
+Lemma sweep_last_tone s e n : 1 <= n -> qlt q0 (clamp0 e) = true ->
+  last (map tone_of (positives (sweep_freqs s e n))) 0 = tone_of (clamp0 e).
+Proof.
+  intros Hn He. unfold sweep_freqs.
+  rewrite (seq_last_split (Z.to_nat n)) by lia.
+  rewrite map_app, positives_app, map_app. cbn [map].
+  replace (Z.of_nat (Z.to_nat n - 1)) with (n - 1) by lia.
+  assert (Hq : qlt q0 (sweep_freq s e n (n - 1)) = true).
+  { apply qlt_true. rewrite (sweep_freq_last s e n Hn). apply qlt_true. exact He. }
+  unfold positives at 2. cbn [filter]. rewrite Hq. cbn [map].
+  rewrite last_last. apply tone_of_comp. apply sweep_freq_last. exact Hn.
+Qed.
+
+Lemma sweep_first_tone s e n : 1 < n -> qlt q0 (clamp0 s) = true ->
+  hd 0 (map tone_of (positives (sweep_freqs s e n))) = tone_of (clamp0 s).
+Proof.
+  intros Hn Hs. unfold sweep_freqs.
+  replace (Z.to_nat n) with (S (Z.to_nat n - 1)) by lia. cbn [seq map].
+  change (Z.of_nat 0) with 0.
+  assert (Hq : qlt q0 (sweep_freq s e n 0) = true).
+  { apply qlt_true. rewrite (sweep_freq_first s e n Hn). apply qlt_true. exact Hs. }
+  unfold positives. cbn [filter]. rewrite Hq. cbn [map hd].
+  apply tone_of_comp. apply sweep_freq_first. exact Hn.
+Qed.
+
+(* delays *)
+Lemma delay_sum_sound pin f st : delay_sum (snd (sound pin f st)) = 0.
+Proof. unfold sound. destruct (qlt q0 f); reflexivity. Qed.
+
+Lemma sweep_loop_delays pin s e steps sd k : forall i st,
+  delay_sum (snd (sweep_loop pin s e steps sd k i st)) = Z.of_nat k * delay_sum (qdelay sd).
+Proof.
+  induction k as [|k IH]; intros i st; [reflexivity|].
+  cbn [sweep_loop].
+  pose proof (delay_sum_sound pin (sweep_freq s e steps i) st) as Hs.
+  destruct (sound pin (sweep_freq s e steps i) st) as [st1 e1]. cbn [snd] in Hs.
+  specialize (IH (i + 1) st1).
+  destruct (sweep_loop pin s e steps sd k (i + 1) st1) as [st2 e3]. cbn [fst snd] in *.
+  rewrite !delay_sum_app, Hs, IH. lia.
+Qed.
+
+Lemma step_delay_bound total n : 0 <= total -> 1 <= n ->
+  n * delay_sum (qdelay (inject_Z total / inject_Z n)) <= total.
+Proof.
+  intros Ht Hn. unfold qdelay. destruct (qlt q0 (inject_Z total / inject_Z n)).
+  - unfold delay_sum. cbn. rewrite Z.add_0_r, <- Zdiv_Qdiv. apply Z.mul_div_le. lia.
+  - unfold delay_sum. cbn. lia.
+Qed.
+
+Lemma sweep_delay_sum pin neg tbl st s e d steps :
+  delay_sum (snd (dstep pin neg tbl st (Sweep s e d steps))) =
+  Z.max 1 (c_int steps) *
+  delay_sum (qdelay (inject_Z (c_ulong neg d) / inject_Z (Z.max 1 (c_int steps)))).
+Proof.
+  cbn [dstep]. unfold sweep.
+  pose proof (sweep_loop_delays pin (clamp0 s) (clamp0 e) (Z.max 1 (c_int steps))
+               (inject_Z (c_ulong neg d) / inject_Z (Z.max 1 (c_int steps)))%Q
+               (Z.to_nat (Z.max 1 (c_int steps))) 0 st) as Hl.
+  destruct (sweep_loop pin (clamp0 s) (clamp0 e) (Z.max 1 (c_int steps))
+              (inject_Z (c_ulong neg d) / inject_Z (Z.max 1 (c_int steps)))%Q
+              (Z.to_nat (Z.max 1 (c_int steps))) 0 st) as [st1 e1].
+  cbn [fst snd] in *. rewrite delay_sum_app, Hl. unfold delay_sum at 2. cbn. rewrite Z2Nat.id by lia. lia.
+Qed.
+
+Lemma c_ulong_nonneg neg d : qle q0 d = true -> c_ulong neg d = Qfloor d /\ 0 <= Qfloor d.
+Proof.
+  intro H. unfold c_ulong. rewrite H. split; [reflexivity|].
+  apply qle_true in H. change 0 with (Qfloor 0). apply Qfloor_resp_le. exact H.
+Qed.
+
+Lemma filter_len_le {A} (f : A -> bool) l : (length (filter f l) <= length l)%nat.
+Proof. induction l as [|a l IH]; cbn; [lia|]. destruct (f a); cbn; lia. Qed.
+
+(* C16_sweep *)
+Lemma sweep_protocol : forall pin neg tbl st s e d steps,
+  let n := Z.max 1 (c_int steps) in
+  let tr := snd (dstep pin neg tbl st (Sweep s e d steps)) in
+  (* the tones are the positive ones among the n interpolated frequencies, in order *)
+  tones tr = map tone_of (positives (sweep_freqs (clamp0 s) (clamp0 e) n)) /\
+  (length (tones tr) <= Z.to_nat n)%nat /\
+  (* guard forced by "frequency <= 0 never tones": both ends positive => exactly n tones *)
+  (qlt q0 s = true -> qlt q0 e = true ->
+     tones tr = map tone_of (sweep_freqs s e n) /\ length (tones tr) = Z.to_nat n) /\
+  (* monotone, in the direction start -> end (clamped at 0) *)
+  ((clamp0 s <= clamp0 e)%Q -> StronglySorted Z.le (tones tr)) /\
+  ((clamp0 e <= clamp0 s)%Q -> StronglySorted Z.ge (tones tr)) /\
+  (* first = start when steps > 1; last = end *)
+  (1 < n -> qlt q0 s = true -> hd 0 (tones tr) = tone_of s) /\
+  (qlt q0 e = true -> last (tones tr) 0 = tone_of e) /\
+  (* the delays never add up to more than the given duration *)
+  (qle q0 d = true -> delay_sum tr <= Qfloor d /\ (inject_Z (delay_sum tr) <= d)%Q) /\
+  (* and the call ends with noTone *)
+  sounding_from true tr = false.
+Proof.
+  intros pin neg tbl st s e d steps n tr.
+  assert (Hn : 1 <= n) by (subst n; lia).
+  assert (Ht : tones tr = map tone_of (positives (sweep_freqs (clamp0 s) (clamp0 e) n)))
+    by (apply sweep_tones).
+  split; [exact Ht|]. split.
+  { rewrite Ht, map_length. unfold positives.
+    eapply Nat.le_trans; [apply filter_len_le|]. rewrite sweep_freqs_length. apply Nat.le_refl. }
+  split.
+  { intros Hs He. rewrite Ht, (clamp0_pos s Hs), (clamp0_pos e He).
+    rewrite positives_all by (apply sweep_freqs_all_pos; try apply qlt_true; assumption).
+    split; [reflexivity|]. rewrite map_length. apply sweep_freqs_length. }
+  split.
+  { intro Hse. rewrite Ht. apply sweep_tones_sorted. intros i j Hij.
+    apply tone_of_mono. apply sweep_freq_up; [exact Hse|exact Hn|lia]. }
+  split.
+  { intro Hse. rewrite Ht. apply sweep_tones_sorted. intros i j Hij.
+    apply Z.le_ge. apply tone_of_mono. apply sweep_freq_down; [exact Hse|exact Hn|lia]. }
+  split.
+  { intros H1 Hs. rewrite Ht. rewrite (clamp0_pos s Hs).
+    rewrite (sweep_first_tone s (clamp0 e) n H1); rewrite (clamp0_pos s Hs); [reflexivity|exact Hs]. }
+  split.
+  { intro He. rewrite Ht. rewrite (clamp0_pos e He).
+    rewrite (sweep_last_tone (clamp0 s) e n Hn); rewrite (clamp0_pos e He); [reflexivity|exact He]. }
+  split.
+  { intro Hd. destruct (c_ulong_nonneg neg d Hd) as [Hc Hp].
+    assert (Hb : delay_sum tr <= Qfloor d).
+    { subst tr. rewrite sweep_delay_sum, Hc. apply step_delay_bound; assumption. }
+    split; [exact Hb|].
+    eapply Qle_trans; [|apply Qfloor_le]. rewrite <- Zle_Qle. exact Hb. }
+  subst tr. cbn [dstep]. unfold sweep.
+  destruct (sweep_loop pin (clamp0 s) (clamp0 e) (Z.max 1 (c_int steps))
+              (inject_Z (c_ulong neg d) / inject_Z (Z.max 1 (c_int steps)))%Q
+              (Z.to_nat (Z.max 1 (c_int steps))) 0 st) as [st1 e1].
+  cbn [snd]. rewrite sounding_from_app. reflexivity.
+Qed.
+
+(* a negative duration that reaches the cast as a run-time int wraps around: the sweep then delays
+   far longer than any reading of "the given duration" *)
+Lemma sweep_negative_duration_refuted :
+  exists pin tbl st s e d steps,
+    (d < 0)%Q /\
+    0 < delay_sum (snd (dstep pin (neg_int 32) tbl st (Sweep s e d steps))).
+Proof.
+  exists 8, [], (init (Qmake 440 1)), (Qmake 440 1), (Qmake 880 1), (Qmake (-1) 1), (Qmake 2 1).
+  split; [reflexivity|]. vm_compute. reflexivity.
+Qed.
